@@ -196,7 +196,7 @@ class C11(Prop):
     reparse_histories = False      # explanations (part of the compared results) also cover earlier parse() calls
     struct_inputs = False          # the arguments of the workload are compared before/after the call
     typed_inputs = False
-    rule_added = "Some pairs of objects share the interval text and have sampling periods with the same number and another unit; 40% of multi-variable offline purity cases insert a poisoned call (one variable without numbers) between repetitions. 25% of discrete offline purity cases with tuple columns; identity of the caller's dictionary entries is compared. Cross-process groups by kind (random / confusable periods / dense units / discrete units). 40% of the dense online objects re-send the frontier sample at the start of their second batch."
+    rule_added = "6% of the isolation cases: 2-3 online objects whose bounded past operators have the same wide bounds (256..400 samples). Some pairs of objects share the interval text and have sampling periods with the same number and another unit; 40% of multi-variable offline purity cases insert a poisoned call (one variable without numbers) between repetitions. 25% of discrete offline purity cases with tuple columns; identity of the caller's dictionary entries is compared. Cross-process groups by kind (random / confusable periods / dense units / discrete units). 40% of the dense online objects re-send the frontier sample at the start of their second batch."
     rule = ('(1) purity: one spec of each monitor kind is run on generated data passed as tripwire lists/dicts; the '
             'arguments are deep-compared before/after every call (short traces under long bounds, bare variables '
             'under temporal operators); (2) repeatability: offline evaluate() twice on the same object and data; '
@@ -217,6 +217,8 @@ class C11(Prop):
     def gen(self, rng, ctx):
         if rng.random() < 0.5:
             return {'type': 'purity', 'obj': gen_obj(rng)}
+        if rng.random() < 0.06:
+            return self.gen_wide(rng)
         k = rng.randint(2, 4)
         objs = [gen_obj(rng) for _ in range(k)]
         if rng.random() < 0.4:
@@ -230,6 +232,26 @@ class C11(Prop):
             order += [i] * len(calls_of(o))
         rng.shuffle(order)
         return {'type': 'isolation', 'objs': objs, 'order': order, 'share': rng.random() < 0.5}
+
+    def gen_wide(self, rng):
+        """Two or three online objects whose bounded past operators have the same, wide bounds (256..400 samples):
+        whatever a monitor keeps per window (buffers of hundreds of entries) belongs to that monitor alone."""
+        a = rng.choice([0, 0, 2, 255])
+        b = rng.randint(256, 400)
+        objs = []
+        for _ in range(rng.randint(2, 3)):
+            p = lang.N(rng.choice(['geq', 'leq']), lang.V('x'), lang.C(rng.choice([0.0, 1.0, 2.0])))
+            f = lang.N(rng.choice(['once', 'historically']), p, ivl=(a, b))
+            if rng.random() < 0.4:
+                f = lang.N(rng.choice(['and', 'or']), f, lang.N('geq', lang.V('y'), lang.C(0.0)))
+            names = lang.variables(f)
+            objs.append({'kind': 'dt_on', 'formula': lang.to_jsonable(f), 'data': lang.gen_trace(rng, names, rng.randint(4, 10)),
+                         'reps': 1})
+        order = []
+        for i, o in enumerate(objs):
+            order += [i] * len(calls_of(o))
+        rng.shuffle(order)
+        return {'type': 'isolation', 'objs': objs, 'order': order, 'share': False, 'wide': True}
 
     def judge(self, case):
         return self.judge_purity(case) if case['type'] == 'purity' else self.judge_isolation(case)
@@ -301,6 +323,8 @@ class C11(Prop):
         objs = case['objs']
         v.nontrivial = len(case['order']) >= 3
         v.info['isolation:%d-objects' % len(objs)] = 1
+        if case.get('wide'):
+            v.info['isolation:wide-windows'] = 1
         self.__dict__.setdefault('_orders', set()).add((tuple(case['order']), tuple(o['kind'] for o in objs)))
         solo = [run_solo(o) for o in objs]
         try:
